@@ -367,6 +367,28 @@ def r8_toggles(idx, r):
               msg="addInterface must disable the interface when enabled=False")
 
 
+def r9_convergence_measure(idx, r):
+    """The coupled-iteration loop stops when every coupler reports convergence, and a coupler tests only
+    `eps < tolerance` (one-sided). eps must therefore be a magnitude in every branch that computes it - abs() of a
+    difference or a norm - or a quantity that merely DEcreased counts as converged."""
+    f = idx.method("armi.interfaces.TightCoupler", "isConverged")
+    if f is None:
+        raise AnchorMissing("TightCoupler.isConverged")
+    cmp_ = [n for n in walk_local(f.node) if isinstance(n, ast.Compare) and "self.eps" in norm(n) and "tolerance" in norm(n)]
+    if not cmp_:
+        raise AnchorMissing("isConverged: comparison of eps with the tolerance")
+    one_sided = all(len(c.ops) == 1 and isinstance(c.ops[0], (ast.Lt, ast.LtE)) and norm(c.left) == "self.eps" for c in cmp_)
+    stores = [s_ for s_ in iter_stores(f.node) if s_.chain == "self.eps" and s_.kind == "assign"]
+    if not stores:
+        raise AnchorMissing("isConverged: stores into self.eps")
+    for i, s_ in enumerate(stores):
+        v = s_.value
+        mag = isinstance(v, ast.Call) and (dotted(v.func) in ("abs", "np.abs", "numpy.abs", "math.fabs", "np.fabs") or (dotted(v.func) or "").split(".")[-1] == "norm")
+        r.require(mag or not one_sided, f"eps-is-a-magnitude#{i}:{norm(v)[:40]}", f, node=s_.stmt,
+                  msg=f"`{norm(s_.stmt)[:70]}` can be negative, and the convergence test is the one-sided `{norm(cmp_[0])}`: a value that decreased by more than the tolerance "
+                      "is reported converged and the coupled iterations stop early")
+
+
 def run(idx, chk):
     chk.explanation = (
         "C15: the operator's main, cycle and node loops, _interactAll, the six interactAllX entry points, getActiveInterfaces, the tight "
@@ -387,3 +409,5 @@ def run(idx, chk):
                  necessary="'enabled (or forced at beginning-of-life)' must reflect what the stack was configured with")
     chk.run_rule("R15.7", "(cycle,node) <-> cumulative numbering share getNodesPerCycle = burnSteps+1 and are inverse affine forms; equal steps sum to length x availability", lambda r: r7_node_arithmetic(idx, r), floor=14,
                  necessary="numbering must follow the order a run visits nodes")
+    chk.run_rule("R15.9", "tight coupling: the measure compared one-sidedly with the tolerance is a magnitude (abs / norm) in every branch", lambda r: r9_convergence_measure(idx, r), floor=3,
+                 necessary="coupled iterations run until every coupler has converged")
